@@ -2,7 +2,7 @@
 (* C18, implementation level.  One case per state of ShortCircuit.tla: [kind, cfg, run, ref, a, b] where a / b are    *)
 (* 1-based indices into Runs (IOEnv.RUNS_FILE), the projections of net.res_bus_sc / res_line_sc / res_trafo_sc after  *)
 (* the real calc_sc call CallOf(cfg, run) resp. CallOf(cfg, ref) on the template network:                            *)
-(*   [ok, rows (bus ids = res_bus_sc.index), vn (rated voltages of all buses in volt), ikss, skss, ip, rk, xk, rk0,   *)
+(*   [ok, rows (bus LABELS = res_bus_sc.index), vn (rated voltages of all buses in volt, row order), ikss, skss, ip, rk, xk, rk0,   *)
 (*    xk0 (per row), line, thv, tlv (ikss_ka per line, ikss_hv_ka / ikss_lv_ka per trafo)]                           *)
 (* every number as a wide integer round(x * 10^10) (Wide.tla); m = <<1>> NaN, <<2>>/<<3>> inf, <<4>> column absent.   *)
 (* Which clause is required on which case is computed by ShortCircuitDef!Required from (cfg, run, ref, kind).         *)
@@ -17,7 +17,7 @@ ONext == UNCHANGED i
 C == Cases[i]
 A == Runs[C.a]
 B == Runs[C.b]
-RunOf(r) == [fault |-> r.fault, sn |-> r.sn, inv |-> r.inv, buses |-> {r.buses[k] : k \in 1..Len(r.buses)}]
+RunOf(r) == [fault |-> r.fault, sn |-> r.sn, inv |-> r.inv, buses |-> {r.buses[k] : k \in 1..Len(r.buses)}, lab |-> r.lab]
 Cfg == C.cfg
 Run == RunOf(C.run)
 Ref == RunOf(C.ref)
@@ -25,10 +25,13 @@ Req == Required(Cfg, Run, Ref, C.kind)
 Rows(o) == 1..Len(o.rows)
 Pos(o, b) == CHOOSE k \in Rows(o) : o.rows[k] = b
 Has(o, b) == \E k \in Rows(o) : o.rows[k] = b
+\* template bus of result row k of the run A (rows are addressed by label)
+BusA(k) == BusOf(Run.lab, A.rows[k])
 
 \* binding (not a property clause; a failure is a machinery error): the net the harness built is the spec's template
 Bind_Template == A.ok => /\ Len(A.vn) = Cardinality(Bus) /\ \A b \in Bus : A.vn[b + 1] = Vn(b)
-                         /\ \A k \in Rows(A) : A.rows[k] \in Bus
+                         /\ \A k \in Rows(A) : A.rows[k] \in AllLabels(Run.lab)
+                         /\ A.labels = LabelSeq(Run.lab)
                          /\ Len(A.ikss) = Len(A.rows) /\ Len(A.rk) = Len(A.rows) /\ Len(A.xk) = Len(A.rows)
                          /\ (Cfg.branch => Len(A.line) = NLine /\ Len(A.thv) = NTrafo /\ Len(A.tlv) = NTrafo)
 
@@ -38,9 +41,9 @@ C18_FaultedBusesReported == ("C18_FaultedBusesReported" \in Req /\ A.ok) =>
     \A b \in ReportedRows(Run) : Has(A, b) /\ IsW(A.ikss[Pos(A, b)])
 C18_IkssThevenin == ("C18_IkssThevenin" \in Req /\ A.ok) =>
     \A k \in Rows(A) : /\ IsW(A.ikss[k]) /\ IsW(A.rk[k]) /\ IsW(A.xk[k])
-                       /\ IkssRel(A.rows[k], Cfg, A.ikss[k], A.rk[k], A.xk[k])
+                       /\ IkssRel(BusA(k), Cfg, A.ikss[k], A.rk[k], A.xk[k])
 C18_SkssPower == ("C18_SkssPower" \in Req /\ A.ok) =>
-    \A k \in Rows(A) : IsW(A.skss[k]) /\ IsW(A.ikss[k]) /\ SkssRel(A.rows[k], A.skss[k], A.ikss[k])
+    \A k \in Rows(A) : IsW(A.skss[k]) /\ IsW(A.ikss[k]) /\ SkssRel(BusA(k), A.skss[k], A.ikss[k])
 C18_IpBounds == ("C18_IpBounds" \in Req /\ A.ok) => \A k \in Rows(A) : IpRel(Cfg, A.ip[k], A.ikss[k])
 
 \* ---- pair clauses ------------------------------------------------------------------------------------------------
@@ -58,6 +61,16 @@ C18_BusSubsetInvariant == "C18_BusSubsetInvariant" \in Req => (A.ok = B.ok /\ (B
     \A k \in Rows(A) : Has(B, A.rows[k]) /\ LET j == Pos(B, A.rows[k]) IN
         /\ SameW(A.ikss[k], B.ikss[j]) /\ SameW(A.skss[k], B.skss[j]) /\ SameW(A.ip[k], B.ip[j])
         /\ SameW(A.rk[k], B.rk[j]) /\ SameW(A.xk[k], B.xk[j]) /\ SameW(A.rk0[k], B.rk0[j]) /\ SameW(A.xk0[k], B.xk0[j])))
+\* the row of template bus b does not depend on how the bus table is labelled (B: default labels = row positions);
+\* a relabelled call that raises while the default one returns violates the clause
+C18_LabelInvariantBus == "C18_LabelInvariantBus" \in Req => (A.ok = B.ok /\ (BothOk =>
+    /\ Len(A.rows) = Len(B.rows)
+    /\ \A b \in Run.buses : Has(A, LabelOf(Run.lab, b)) /\ Has(B, LabelOf(Ref.lab, b)) /\
+        LET k == Pos(A, LabelOf(Run.lab, b))  j == Pos(B, LabelOf(Ref.lab, b)) IN
+        /\ SameW(A.ikss[k], B.ikss[j]) /\ SameW(A.skss[k], B.skss[j]) /\ SameW(A.ip[k], B.ip[j])
+        /\ SameW(A.rk[k], B.rk[j]) /\ SameW(A.xk[k], B.xk[j]) /\ SameW(A.rk0[k], B.rk0[j]) /\ SameW(A.xk0[k], B.xk0[j])))
+\* lines and transformers keep their own indices: the branch tables are compared position by position
+C18_LabelInvariantBranch == ("C18_LabelInvariantBranch" \in Req /\ BothOk) => SameBranch(A, B)
 \* A = 2ph run, B = the 3ph run with otherwise identical options
 C18_TwoPhaseRatio == ("C18_TwoPhaseRatio" \in Req /\ BothOk) =>
     \A k \in Rows(A) : Has(B, A.rows[k]) /\ LET j == Pos(B, A.rows[k]) IN
